@@ -465,4 +465,109 @@ def lowDim : Geom → Bool
   | .timeStamp _ | .point .. | .lineString _ | .multiPoint _ | .multiLineString _ => true
   | _ => false
 
+
+
+/-! ### third-engineer additions (follow-up: histories and construction paths)
+
+  1. *Histories.*  The four public functions are pure: what a call answers is a function of the
+     content the geometry object carries when the call is made and of the call, nothing else.  A
+     history is a list of steps in one process — the object gets (new) content, a function is
+     called, the caller mutates a value that an earlier call returned ("poison") — and `runHist`
+     is its one right answer.  (`C05_history_pure`, `C05_history_poison` in Proofs/C05.lean.)
+  2. *Call forms.*  Python binds positional and keyword arguments to the parameter list;
+     `bindCall` is that rule, the parameter lists of the four public functions are re-extracted
+     by introspection on every run (`sigOK`).  (`C05_call_forms`, `C05_call_forms_unary`.) -/
+
+/-- one call of a public function on a geometry object -/
+inductive Call
+  | bounds                  -- compute_bounds(g)
+  | features                -- compute_geometric_features(g)
+  | shape                   -- geometry_to_shapely(g)
+  | point (pos : String)    -- get_geometry_point(g, pos)
+  deriving DecidableEq, Repr, Inhabited
+
+/-- what a call returns -/
+inductive Ans
+  | bounds (b : Bounds)
+  | features (fs : List (String × Rat))
+  | shape (s : Shape)
+  | point (p : Pt)
+  deriving DecidableEq, Repr, Inhabited
+
+/-- the answer of a call on a geometry with content `g` (`lib g` stands for shapely's centroid /
+    point on surface of the converted shape); a geometry without points (never valid) is an error -/
+def answer (lib : Geom → String → Pt) (g : Geom) : Call → Except Err Ans
+  | .bounds => match g.bounds with
+      | some b => .ok (.bounds b)
+      | none => .error .invalid
+  | .features => match features g with
+      | some fs => .ok (.features fs)
+      | none => .error .invalid
+  | .shape => .ok (.shape (toShape g))
+  | .point pos => match g.bounds with
+      | some b => match pointAt (lib g) pos b with
+          | .ok p => .ok (.point p)
+          | .error e => .error e
+      | none => .error .invalid
+
+/-- a step of a history in one process -/
+inductive Step
+  | set (g : Geom)        -- a fresh object, or the object in use gets new coordinates (assignment,
+                          -- model_copy(update=…), copy + assignment, in-place edit of the list)
+  | query (c : Call)      -- a call on the object
+  | poison (k : Nat)      -- the caller mutates, in place, the value the k-th call returned
+  deriving DecidableEq, Repr, Inhabited
+
+/-- the answers of the calls of a history, in order; `cur` is the content of the object in use -/
+def runHist (lib : Geom → String → Pt) : Option Geom → List Step → List (Except Err Ans)
+  | _, [] => []
+  | _, .set g :: rest => runHist lib (some g) rest
+  | cur, .poison _ :: rest => runHist lib cur rest
+  | none, .query _ :: rest => .error .invalid :: runHist lib none rest
+  | some g, .query c :: rest => answer lib g c :: runHist lib (some g) rest
+
+def Step.isPoison : Step → Bool
+  | .poison _ => true
+  | _ => false
+
+/-- a parameter of a Python function: its name and its default (if it has one); argument values
+    are opaque tokens -/
+structure Param where
+  name : String
+  dflt : Option String
+  deriving DecidableEq, Repr, Inhabited
+
+/-- Python's binding of positional arguments `pos` and keyword arguments `kw` to the parameters,
+    in parameter order (`none`: TypeError — too many positional arguments, two values for one
+    parameter, a required parameter without value) -/
+def bindArgs : List Param → List String → List (String × String) → Option (List String)
+  | [], [], _ => some []
+  | [], _ :: _, _ => none
+  | p :: ps, v :: vs, kw =>
+      if (kw.lookup p.name).isSome then none else (bindArgs ps vs kw).map (v :: ·)
+  | p :: ps, [], kw =>
+      match kw.lookup p.name with
+      | some v => (bindArgs ps [] kw).map (v :: ·)
+      | none => match p.dflt with
+          | some v => (bindArgs ps [] kw).map (v :: ·)
+          | none => none
+
+/-- a call: every keyword must name a parameter, no keyword twice, then `bindArgs` -/
+def bindCall (sig : List Param) (pos : List String) (kw : List (String × String)) : Option (List String) :=
+  if kw.all (fun k => sig.any (fun p => p.name == k.1)) && decide (kw.map (·.1)).Nodup
+  then bindArgs sig pos kw else none
+
+/-- what the check needs of the parameter list of a public function, evaluated on the list
+    extracted by introspection: `required` leading parameters without default (the geometry),
+    then — for `get_geometry_point` — the position with a default that is one of the names, then
+    only parameters with defaults; all names distinct -/
+def sigOK (sig : List Param) (withPosition : Bool) : Bool :=
+  decide (sig.map (·.name)).Nodup &&
+  match sig, withPosition with
+  | g :: rest, false => g.dflt.isNone && rest.all (·.dflt.isSome)
+  | g :: p :: rest, true =>
+      g.dflt.isNone && (match p.dflt with | some d => decide (d ∈ positionNames) | none => false) &&
+      rest.all (·.dflt.isSome)
+  | _, _ => false
+
 end SE.Bnd
